@@ -425,8 +425,8 @@ def enable_argflip(only, every=4):
 
 def _argflip(fn, a, k):
     arrs = [x for _, x in _iter_arrays(a, k) if x.ndim == 1 and x.size > 1 and x.flags.writeable]
-    if not arrs:
-        return
+    if not arrs or max(x.size for x in arrs) > 200000:
+        return              # (the long arrays of the big-array cases have their own differential)
     for i in range(len(arrs)):
         for j in range(i + 1, len(arrs)):
             if np.may_share_memory(arrs[i], arrs[j]):
